@@ -197,5 +197,17 @@ M("c19-zero-id","C19","compliance/flush.go","\telectionID.Inc()\n\taddFlushEntri
 M("c19-add-too-small","C19","compliance/election.go","\tdefer electionID.Add(2)","\tdefer electionID.Add(1)","ELECTION-IDS-FORWARD")
 N("c19-n-explicit-flush","C19","compliance/mpls.go","\tdefer flushServer(c, t)","\tdefer func() { flushServer(c, t) }()",note="deferred closure calling flushServer")
 
+# ---------------- round 3 rules
+M("c03-dup-member-counted-twice","C03",R,"\t\tif seen[nh.GetIndex()] {\n\t\t\tcontinue\n\t\t}\n\t\tseen[nh.GetIndex()] = true\n","","NHG-REFERENCES",note="revert of fix 7206dbc")
+M("c03-dup-seen-never-recorded","C03",R,"\t\tseen[nh.GetIndex()] = true\n","","NHG-REFERENCES")
+N("c03-n-member-set-two-loops","C03",R,"\tseen := map[uint64]bool{}\n\tfor _, nh := range new.NextHop {\n\t\tif seen[nh.GetIndex()] {\n\t\t\tcontinue\n\t\t}\n\t\tseen[nh.GetIndex()] = true\n\t\tniRIB.incNHRefCount(nh.GetIndex())\n\t}","\tmembers := map[uint64]bool{}\n\tfor _, nh := range new.NextHop {\n\t\tmembers[nh.GetIndex()] = true\n\t}\n\tfor idx := range members {\n\t\tniRIB.incNHRefCount(idx)\n\t}",note="set of member ids built first, then one increment per id")
+N("c03-n-dec-by-map-key","C03",R,"\t\tfor _, nh := range original.NextHop {\n\t\t\tniRIB.decNHRefCount(nh.GetIndex())\n\t\t}","\t\tfor idx := range original.NextHop {\n\t\t\tniRIB.decNHRefCount(idx)\n\t\t}",note="the installed map's key is the member id")
+M("c12-zero-index-same-pass","C12",R,"\t\t\t\treturn false, fmt.Errorf(\"invalid zero index NH in NHG %d, NI %s\", g.GetId(), netInst)\n\t\t\t}\n\t\t}\n\t\tfor _, n := range g.NextHop {\n","\t\t\t\treturn false, fmt.Errorf(\"invalid zero index NH in NHG %d, NI %s\", g.GetId(), netInst)\n\t\t\t}\n","CAN-RESOLVE",note="revert of fix 3a1fa73: validation and resolution in one pass over the map")
+M("c09-fatal-op-continues","C09",S,"\t\t\terrCh <- err\n\t\t\treturn false\n","\t\t\terrCh <- err\n","FATAL-ENDS-SESSION")
+M("c09-loop-ignores-domodify-verdict","C09",S,"\t\t\t\tif !s.doModify(cid, in.Operation, resultChan, errCh) {\n\t\t\t\t\t// A fatal error was reported, the RPC is being torn down so\n\t\t\t\t\t// nothing further from this client is handled.\n\t\t\t\t\treturn\n\t\t\t\t}\n","\t\t\t\ts.doModify(cid, in.Operation, resultChan, errCh)\n","TABLE-DISPATCH")
+M("c01-fatal-op-continues","C01",S,"\t\t\terrCh <- err\n\t\t\treturn false\n","\t\t\terrCh <- err\n","FATAL-ENDS-SESSION")
+M("c06-results-sorted","C06",S,"\treturn &spb.ModifyResponse{\n\t\tResult: results,\n\t}, nil","\tsort.Slice(results, func(i, j int) bool { return results[i].Id < results[j].Id })\n\treturn &spb.ModifyResponse{\n\t\tResult: results,\n\t}, nil","RESULT-MAPPING",note="needs the sort import: does-not-typecheck unless present")
+M("c06-oks-truncated","C06",S,"\tfor _, ok := range oks {\n\t\tlog.V(2)","\tif len(oks) > 1 {\n\t\toks = oks[:1]\n\t}\n\tfor _, ok := range oks {\n\t\tlog.V(2)","RESULT-MAPPING")
+
 json.dump(V, open('/verif/selftest/variants.json','w'), indent=1)
 print(len(V),'variants;', sum(1 for v in V if v['neutral']),'neutral')
